@@ -286,7 +286,7 @@ def fNeg : FloatV → Bool
   | .inf n => n
   | .nan => false
 
-/-- `max(0.0, Convert2Num(t))` (`framer … at`, `bid … at`) -/
+/-- `max(0.0, Convert2RealNum(t))` (`framer … at`, `bid … at`) -/
 def max0 (t : Str) : P Val :=
   match convert2Num t with
   | .error _ => .error .value
@@ -296,7 +296,7 @@ def max0 (t : Str) : P Val :=
      | .nan => .ok (.float zero)                  -- `nan > 0.0` is false
      | .fin d => if d.mant != 0 && !d.neg then .ok (.float f) else .ok (.float zero)
      | .inf n => if n then .ok (.float zero) else .ok (.float f))
-  | .ok (.complex _ _) => .error .type_           -- defect D8
+  | .ok (.complex _ _) => .error .value           -- `Convert2RealNum`: ValueError (was TypeError from `max`: defect D8)
   | .ok v => .ok v
 
 /-! ### the option loops -/
@@ -867,13 +867,14 @@ def num (t : Str) : P Val :=
   | .error _ => .error .value
   | .ok v => .ok v
 
-/-- `int(Convert2Num(text))`: which exception, if any -/
+/-- `int(Convert2Num(text))` with `except (OverflowError, ValueError, TypeError)` → ParseError (`logger … keep`;
+as found these were TypeError, ValueError, OverflowError: defects D8, D65) -/
 def numInt (t : Str) : P Val :=
   bind (num t) fun v =>
     match v with
-    | .complex _ _ => .error .type_
-    | .float .nan => .error .value
-    | .float (.inf _) => .error .overflow
+    | .complex _ _ => .error .parse
+    | .float .nan => .error .parse
+    | .float (.inf _) => .error .parse
     | v => .ok v
 
 /-- a flag: no value token -/
